@@ -21,7 +21,7 @@ func init() {
 				"frame check on all symbolic paths of: zoom change (1-2 IDs), merge (1-2 IDs), neighbourhood layers, notation conversion, expansion, quadkey conversion, tile conversion, set helpers, extended overlap arrays, determinism harness — with the bounds of those harnesses",
 				"static scan: every function of every package under the module path, including instantiated generics and anonymous functions",
 			},
-			Outside: []string{"third-party code behind the stubs (wgs84, geodesy, closest): assumed effect-free on shared state", "setters documented to mutate their receiver (Set*, ResetExtendedSpatialID) are not 'read-only arguments'"},
+			Outside:     []string{"third-party code behind the stubs (wgs84, geodesy, closest): assumed effect-free on shared state", "setters documented to mutate their receiver (Set*, ResetExtendedSpatialID) are not 'read-only arguments'"},
 			Assumptions: []string{"a data race needs two accesses to one location, one of them a write, from two calls; with no call writing memory it did not allocate and no mutable package-level state, every interleaving is race-free and each call computes its sequential result"},
 		},
 		insts: func(tier string) []*Instance {
